@@ -88,6 +88,9 @@ class Exec(object):
         elif op == "drop":
             if s[1] in w.conns:
                 w.drop(s[1])
+        elif op == "closing":
+            if s[1] in w.conns:
+                w.begin_close(s[1])
         elif op == "adv":
             w.advance(s[1])
         elif op == "restart":
